@@ -599,7 +599,7 @@ class Scoper(object):
             if w not in marks:
                 marks[w] = k
         f0 = marks.get('from')
-        aliases = {}            # alias -> True
+        aliases = {}            # alias -> number of FROM items introducing it
         table_positions = set()  # token indices that are table names in FROM
         if f0 is not None:
             f1 = min([v for v in marks.values() if v > f0] + [hi])
@@ -657,9 +657,10 @@ class Scoper(object):
             elif _isname(toks[b - 1]):
                 names.append(toks[b - 1][1])
         for nm in names:
-            # (the same alias twice in one FROM -- `UNNEST(a) as pushkin(x_1),
-            # UNNEST(b) as pushkin(x_2)` -- is not something C09 states; not checked)
-            aliases[nm] = True
+            # the same alias twice in one FROM: harmless while nobody refers to it
+            # (`UNNEST(a) as pushkin(x_1), UNNEST(b) as pushkin(x_2)`); a reference
+            # alias.column to it does not designate one FROM item (checked in walk)
+            aliases[nm] = aliases.get(nm, 0) + 1
         # table reference?
         if _isname(toks[a]):
             k = a
@@ -713,6 +714,10 @@ class Scoper(object):
                         self.p('alias_scope', 'alias %s (in %s.%s) is not introduced by an '
                                'enclosing FROM; in scope: %s' % (
                                    t[1], t[1], toks[k + 2][1], sorted(scope)))
+                    elif scope[t[1]] > 1:
+                        self.p('alias_ambiguous', 'alias %s (in %s.%s) is introduced by '
+                               '%d items of the same FROM' % (
+                                   t[1], t[1], toks[k + 2][1], scope[t[1]]))
                 elif head and t[0] == 'id' and re.fullmatch(r'x_\d+', t[1]):
                     # auxiliary unnest variable used bare
                     if not (prev is not None and _iskw(prev, 'as')) and \
